@@ -237,7 +237,7 @@ def _step(case):
         del evaluated[:]; del rots[:]
         H = np.array([[SymReal(v) for v in row] for row in hv], dtype=object)
         try:
-            be._minimize_molecules(None, H, H.mean(axis=0), SymReal(z3.Real('sigma')), 1, [], {}, SymReal(z3.Real('width')), (kind,))
+            be._minimize_molecules(None, H, np.array([SymReal(z3.Real('com%d' % k)) for k in range(3)], dtype=object), SymReal(z3.Real('sigma')), 1, [], {}, SymReal(z3.Real('width')), (kind,))
         except PathAbort as e:
             if isinstance(e, SymZeroDivision):
                 raise
